@@ -434,6 +434,10 @@ class Script:
                         effects.append("let _ = write!(%s, \"{}\", %s);" % (rust_ident(pn), rust_str_lit(ch)))
                     else:
                         effects.append("let _ = %s.write_str(%s);" % (rust_ident(pn), rust_str_lit(ch)))
+                    if r.random() < 0.2:
+                        # a flush in the middle of the output (helpers written before the macro flushed for them end with one): flush() is
+                        # public and idempotent, what follows must still arrive (seed C02-h: the writer's idea of its capacity went stale)
+                        effects.append("%s.flush();" % rust_ident(pn))
         created = []
         self.realize_new(m.ret, ret, lines_r := [], created)
         lines += [("R", l) for l in lines_r]
